@@ -88,12 +88,35 @@ def slot_cases():
     return "".join(out)
 
 
-def prelude(what):
+# translation units written in the idiom of tests/logging_test.cpp: some nitro::log header has already been seen (with no
+# minimum, or with the build system's lower default) when the file raises NITRO_LOG_MIN_SEVERITY and includes log.hpp.
+# The minimum in force is the one defined where <nitro/log/log.hpp> is included.
+EARLY_INCLUDE = {5: ("severity.hpp", None), 10: ("filter/severity_filter.hpp", "trace")}
+
+
+def redefine_minimum(early):
+    header, default = early
+    o = ["// --- the idiom of tests/logging_test.cpp: a nitro::log header is seen BEFORE this file sets its own minimum",
+         "#undef NITRO_LOG_MIN_SEVERITY"]
+    if default:
+        o.append("#define NITRO_LOG_MIN_SEVERITY %s // the build system's default" % default)
+    o.append("#include <nitro/log/%s>" % header)
+    o.append("#undef NITRO_LOG_MIN_SEVERITY")
+    for i, n in enumerate(SEVS):
+        o.append("#%s VH_MIN == %d\n#define NITRO_LOG_MIN_SEVERITY %s" % ("if" if i == 0 else "elif", i, n))
+    o.append("#endif")
+    o.append("// --- from here on as every other translation unit")
+    return o
+
+
+def prelude(what, early=None):
     o = []
     a = o.append
     a("// GENERATED by gen/gen_log_harness.py from props/log_common.py — do not edit.  (%s)" % what)
     a("// Implementation side of the C05/C10 correspondence check; public API of nitro::log only.")
     a("#ifndef VH_MIN\n#error \"compile with -DNITRO_LOG_MIN_SEVERITY=<name> -DVH_MIN=<index>\"\n#endif")
+    if early:
+        o.extend(redefine_minimum(early))
     a('#include "common.hpp"')
     for h in ("attribute/message.hpp", "attribute/severity.hpp", "attribute/tag.hpp", "attribute/timestamp.hpp",
               "filter/and_filter.hpp", "filter/not_filter.hpp", "filter/null_filter.hpp", "filter/or_filter.hpp",
@@ -253,7 +276,7 @@ struct LoggerTable
 def logger_source(i):
     f, m, rc = LOGGERS[i]
     shapes = shapes_for(i)
-    o = prelude("logger %d: %s/%s" % (i, f, m))
+    o = prelude("logger %d: %s/%s" % (i, f, m), EARLY_INCLUDE.get(i))
     a = o.append
     a("namespace lg%d // a distinct named namespace per logger: the alias template Flt must be a different template in every translation unit" % i)
     a("{")
@@ -557,9 +580,9 @@ int main(int argc, char** argv) { return vh::driver_main(argc, argv, run_case); 
     return "\n".join(o) + "\n"
 
 
-def static_source():
+def static_source(early=None):
     """compile-only program: static_asserts pinning decltype(L::sev()) for every logger and severity at this minimum"""
-    o = prelude("static_asserts on the stream types")
+    o = prelude("static_asserts on the stream types" + (", minimum redefined after an early include" if early else ""), early)
     a = o.append
     a("std::vector<std::string> g_ev;")
     a("const Item* g_fp[3];")
@@ -586,7 +609,8 @@ def static_source():
 
 def sources():
     """{path relative to /verif: text}"""
-    out = {"harness/gen/log_driver.cpp": main_source(), "harness/gen/log_static.cpp": static_source()}
+    out = {"harness/gen/log_driver.cpp": main_source(), "harness/gen/log_static.cpp": static_source(),
+           "harness/gen/log_static_early.cpp": static_source(("attribute/severity.hpp", None))}
     for i in range(len(LOGGERS)):
         out["harness/gen/log_l%d.cpp" % i] = logger_source(i)
     return out
